@@ -14,11 +14,13 @@ import gen as G
 PID = "C18"
 RULE = (
     "cases: (a) a dense ranking (values 1..k without gaps) over named alternatives: every dense ranking up to length 5 "
-    "(quick) / 7 (thorough, all 52 609) plus random ones up to length 12 (quick) / 40 (thorough) with heavy ties; observed: "
+    "(quick) / 7 (thorough, all 52 609) plus random ones up to length 12 (quick) / 40 (thorough) with heavy ties, plus LONG "
+    "rankings of 101..~420 alternatives (quick: ~15, thorough: ~200): [2]*L+[1], constant blocks of 100+ in a random order of "
+    "ranks, worst-first listings, random / periodic heavy ties, long permutations without or with a few ties; observed: "
     "untied_rank_, to_series(untied=True) values+index, has_ties_, ties_.  (b) a RanksComparator of 2-5 rankings over the "
     "SAME alternatives, each listed in its own random order, with and without ties, built by the constructor or mkrank_cmp; "
     "observed: to_dataframe(untied=False/True) by label, corr/cov/r2_score/distance (both untied settings); plus a few "
-    "comparators the constructor must refuse; plus comparators in which one ranking is a RE-LISTED COPY of another (same "
+    "comparators the constructor must refuse; plus a few small comparators (2-3 rankings) over more than 100 alternatives; plus comparators in which one ranking is a RE-LISTED COPY of another (same "
     "rank for every alternative, another listing order, with and without ties).  Every cell (i, j) of corr/cov/r2_score/"
     "distance is compared (1e-9) with the statistic recomputed in the harness from columns i and j of the implementation's "
     "own to_dataframe(untied=...); two rankings that give every alternative the same rank must show the self-comparison "
@@ -74,6 +76,77 @@ def _rank_case(rng, values, pool=True):
     else:
         alts = [f"A{i}" for i in range(n)]
     return {"kind": "rank", "alts": alts, "values": list(values)}
+
+
+def _dense(raw):
+    order = {x: i + 1 for i, x in enumerate(sorted(set(raw)))}
+    return [order[x] for x in raw]
+
+
+def long_ranking(rng, how=None):
+    """a dense ranking of MORE THAN 100 (up to ~400) alternatives, mostly with heavy ties; the block patterns list a better
+    alternative late, at least 100 places after a worse one (e.g. [2]*100 + [1], [3]*150 + [1]*20 + [2]*200)"""
+    how = how or rng.choice(["tail", "blocks", "blocks", "worst-first", "random", "periodic", "no-ties", "few-ties"])
+    if how == "tail":  # a long tie, then something strictly better (and sometimes something in between)
+        L = rng.choice([100, 101, 128, 199, 250, rng.randint(100, 399)])
+        v = [2] * L + [1] * rng.choice([1, 1, 2, 30])
+        if rng.random() < 0.3:
+            v = [3] * rng.randint(1, 60) + v
+    elif how == "blocks":  # constant blocks in a random order of ranks, at least one block of 100 or more
+        b = rng.randint(2, 6)
+        lens = [rng.choice([1, 3, 20, 60, 100, 150, 200]) for _ in range(b)]
+        lens[rng.randrange(b)] = rng.choice([100, 120, 150, 200])
+        while sum(lens) > 420:
+            lens[lens.index(max(lens))] //= 2
+        if sum(lens) <= 100:
+            lens[0] += 101
+        ranks = [rng.randint(1, b) for _ in range(b)]
+        v = [r for r, n in zip(ranks, lens) for _ in range(n)]
+        if len(set(v)) == 1:
+            v[-1] = v[0] - 1
+    elif how == "worst-first":  # listed from the worst rank to the best
+        k = rng.randint(2, 8)
+        n = rng.randint(101, 400)
+        v = sorted((rng.randint(1, k) for _ in range(n)), reverse=True)
+    elif how == "random":
+        n = rng.randint(101, 400)
+        k = rng.choice([2, 3, 5, 10, n // 3])
+        v = [rng.randint(1, k) for _ in range(n)]
+    elif how == "periodic":
+        k = rng.randint(2, 7)
+        n = rng.randint(101, 400)
+        v = [(i * rng.choice([1, k - 1])) % k for i in range(n)]
+    elif how == "no-ties":
+        n = rng.randint(101, 300)
+        v = list(range(n, 0, -1)) if rng.random() < 0.5 else rng.sample(range(1, n + 1), n)
+    else:  # few ties: a permutation with a handful of repeated ranks
+        n = rng.randint(101, 300)
+        v = rng.sample(range(1, n + 1), n)
+        for _ in range(rng.randint(1, 5)):
+            v[rng.randrange(n)] = v[rng.randrange(n)]
+    return _dense(v)
+
+
+def _long_cmp_case(rng):
+    """a small comparator (2-3 rankings) over MORE THAN 100 alternatives, each ranking listed in its own order"""
+    m = rng.randint(2, 3)
+    first = long_ranking(rng, rng.choice(["tail", "blocks", "worst-first", "random"]))
+    n = len(first)
+    base = [f"A{i}" for i in range(n)]
+    via = rng.choice(["ctor", "mkrank_cmp"])
+    names = rng.sample(NAME_POOL, m)
+    ranks = []
+    for j in range(m):
+        alts = list(base)
+        if j and rng.random() < 0.7:
+            rng.shuffle(alts)
+        if j == 0:
+            vals = first
+        else:
+            k = rng.choice([2, 3, 10, n])
+            vals = _dense([rng.randint(1, k) for _ in range(n)]) if k < n else rng.sample(range(1, n + 1), n)
+        ranks.append({"name": names[j], "alts": alts, "values": vals})
+    return {"kind": "cmp", "via": via, "ranks": ranks, "long": True}
 
 
 def _cmp_case(rng, max_alts=9):
@@ -159,6 +232,16 @@ def gen(ctx):
     for i in range(ctx.n(260, 4000)):
         n = rng.randint(1, 12) if not ctx.thorough or i % 2 == 0 else rng.randint(8, 40)
         cases.append(_rank_case(rng, random_dense(rng, n, rng.choice(["heavy", "heavy", "some", "none"]))))
+    # long rankings (more than 100 alternatives), heavy ties, a better alternative listed 100+ places after a worse one
+    cases.append(_rank_case(rng, [2] * 100 + [1]))
+    cases.append(_rank_case(rng, [3] * 150 + [1] * 20 + [2] * 200))
+    for how in ("tail", "blocks", "worst-first", "random", "periodic", "no-ties", "few-ties"):
+        for i in range(ctx.n(1, 20)):
+            cases.append(_rank_case(rng, long_ranking(rng, how)))
+    for i in range(ctx.n(3, 40)):
+        cases.append(_rank_case(rng, long_ranking(rng)))
+    for i in range(ctx.n(3, 24)):
+        cases.append(_long_cmp_case(rng))
     for i in range(ctx.n(160, 3000)):
         cases.append(_cmp_case(rng, ctx.n(9, 15)))
     for i in range(ctx.n(60, 800)):
@@ -173,6 +256,8 @@ def search_gen(ctx):
     cases = [_rank_case(rng, v, pool=False) for L in range(1, 6) for v in dense_rankings(L)]
     for i in range(1500):
         cases.append(_rank_case(rng, random_dense(rng, rng.randint(1, 14), rng.choice(["heavy", "some", "none"]))))
+    for i in range(60):
+        cases.append(_rank_case(rng, long_ranking(rng)))
     for i in range(600):
         cases.append(_cmp_case(rng, 9))
     for i in range(200):
@@ -541,7 +626,9 @@ def tags(case, obs):
     if case["kind"] == "rank":
         n = len(case["values"])
         t = ["rank", "rank:" + ("ties" if len(set(case["values"])) != n else "no-ties"),
-             "rank:n=%s" % (n if n <= 7 else "8-12" if n <= 12 else "13+")]
+             "rank:n=%s" % (n if n <= 7 else "8-12" if n <= 12 else "13-100" if n <= 100 else "101+")]
+        if n > 100 and any(case["values"][i] > case["values"][j] for i in range(n - 100) for j in (i + 100, n - 1)):
+            t.append("rank:better-listed-100+-later")
         return t
     t = ["cmp", "cmp:via=" + case["via"]]
     if "err" in obs:
@@ -549,6 +636,8 @@ def tags(case, obs):
     if not cmp_wellformed(case):
         return t + ["cmp:malformed-accepted"]
     t.append("cmp:rankings=%d" % len(case["ranks"]))
+    if len(case["ranks"][0]["alts"]) > 100:
+        t.append("cmp:alternatives=101+")
     t.append("cmp:different-orders" if _different_orders(case) else "cmp:same-order")
     if any(a["alts"] != b["alts"] and dict(zip(a["alts"], a["values"])) == dict(zip(b["alts"], b["values"]))
            for a, b in itertools.combinations(case["ranks"], 2)):
